@@ -384,6 +384,21 @@ pub fn run(cfg: &Cfg, rep: &mut Rep) {
                 check_compose(rep, sign, f);
             }
             _ => {
+                if r.chance(1, 3) {
+                    // the seconds / sub-second split of every binary boundary a 64-bit shortcut could trip on
+                    // (2^63, 2^64 nanoseconds; one / two centuries; the maximum duration; 2^32, 2^63, 2^64 seconds)
+                    let b: u128 = *r.pick(&[1u128 << 63, 1u128 << 64, (1u128 << 64) - 1, NPC as u128, 2 * NPC as u128, MAX_NS as u128, (1u128 << 32) * NS_S as u128, (1u128 << 53), (u64::MAX as u128) * NS_S as u128, (1u128 << 63) * NS_S as u128]);
+                    let v = match r.below(4) {
+                        0 => b + r.below(5) as u128 - 2,
+                        1 => b + r.below(2_000_000_000) as u128 - 1_000_000_000,
+                        2 => b - b % NS_S as u128 + r.below(1_000_000_000) as u128,
+                        _ => b + r.below(3 * NS_S as u64) as u128,
+                    };
+                    let secs = (v / NS_S as u128).min(u64::MAX as u128) as u64;
+                    rep.class("std/binary-boundary");
+                    check_std(rep, secs, (v % NS_S as u128) as u32);
+                    continue;
+                }
                 let secs = match r.below(4) {
                     0 => r.u64(),
                     1 => (MAX_NS / NS_S) as u64 + r.below(5) - 2,
